@@ -920,3 +920,8 @@ mod tests {
         assert_err("deg()", SfTag::Radians);
     }
 }
+
+// verification hook: bounded-model-checking harnesses (compiled only by Kani, `--cfg kani`)
+#[cfg(kani)]
+#[path = "/verif/harness/h_robotics.rs"]
+mod verif;
